@@ -50,10 +50,14 @@ def make_job(method, st, noise, opts, d):
                 break
         adv = Fraction(adv)
         ok = adv <= proved
+        sig = None
+        if not ok:
+            nxt = next((p for p in CANDIDATES if p > proved), None)
+            sig = f'{adv}>{proved}:' + (C02.failure_sig(S, spec, y1, nxt) if nxt is not None else '-')
         rep.add(f'{name}[{noise},d={d}]', 'lemma', 'discharged' if ok else 'refuted', 'poly-normal-form',
                 statement=f'advertised strong order {adv} <= proved local order {proved}',
-                model=None if ok else {'advertised': str(adv), 'proved': str(proved)},
-                finding_key=name)
+                model=None if ok else {'advertised': str(adv), 'proved': str(proved), 'failure signature at the next order': sig},
+                finding_key=name, finding_sig=sig)
         if d > 1:
             rep.bounded.append({'what': f'{name}[{noise},d={d}]', 'bound': f'dimension-bounded d={d}'})
     return Job(f'{method}-{st}-{noise}{"-gf" if opts else ""}-d{d}', fn)
